@@ -258,6 +258,44 @@ pub fn native_ints(cfg: &RunCfg, extra: &mut Extra) {
                     let p1a = Point1::new(pp.x);
                     let v1a = Vector1::new(vv.x);
                     set((p1a + v1a) - p1a == v1a, "1-D (p + v) - p = v");
+                    // scaling acts component by component (truncating integer division), in every spelling
+                    let a: i128 = 1 + (p[0].unsigned_abs() % 5) as i128; // 1..5
+                    if (0..3).all(|k| fits(p[k] * a)) {
+                        let ta = t(a);
+                        let m = pp * ta;
+                        set([m.x as i128, m.y as i128, m.z as i128] == [p[0] * a, p[1] * a, p[2] * a], "p * a");
+                        let mut x = pp;
+                        x *= ta;
+                        set(x == m, "p *= a");
+                        set(pp.mul_element_wise(ta) == m, "mul_element_wise(a)");
+                        let mut x = pp;
+                        x.mul_assign_element_wise(ta);
+                        set(x == m, "mul_assign_element_wise(a)");
+                    }
+                    let b: i128 = 2 + (p[1].unsigned_abs() % 6) as i128; // 2..7
+                    {
+                        let tb = t(b);
+                        let d = pp / tb;
+                        set([d.x as i128, d.y as i128, d.z as i128] == [p[0] / b, p[1] / b, p[2] / b], "p / b");
+                        let mut x = pp;
+                        x /= tb;
+                        set(x == d, "p /= b");
+                        set(pp.div_element_wise(tb) == d, "div_element_wise(b)");
+                        let mut x = pp;
+                        x.div_assign_element_wise(tb);
+                        set(x == d, "div_assign_element_wise(b)");
+                        let r = pp % tb;
+                        set([r.x as i128, r.y as i128, r.z as i128] == [p[0] % b, p[1] % b, p[2] % b], "p % b");
+                        let mut x = pp;
+                        x %= tb;
+                        set(x == r, "p %= b");
+                        let mut x2 = p2a;
+                        x2 /= tb;
+                        set([x2.x as i128, x2.y as i128] == [p[0] / b, p[1] / b], "2-D p /= b");
+                        let mut x1 = p1a;
+                        x1 /= tb;
+                        set(x1.x as i128 == p[0] / b, "1-D p /= b");
+                    }
                     bad
                 });
                 let bad = match r {
@@ -295,7 +333,7 @@ pub fn native_ints(cfg: &RunCfg, extra: &mut Extra) {
     extra.distinct_nontrivial += distinct.len() as u64;
     extra.sections.insert(
         "native_integer_points".into(),
-        json!({"cases": evals, "types": ["i32", "i64", "u32", "u8", "i8"], "oracle": "i128 component model; additive affine laws only"}),
+        json!({"cases": evals, "types": ["i32", "i64", "u32", "u8", "i8"], "oracle": "i128 component model; additive affine laws and component-wise scaling / division / remainder in every spelling"}),
     );
 }
 
